@@ -369,6 +369,11 @@ class ItemGetterV:
         return "itemgetter%r" % (tuple(self.idx),)
 
 
+class PartialV:
+    def __init__(self, f, args, kwargs):
+        self.f, self.args, self.kwargs = f, args, kwargs
+
+
 class RepeatV:
     """itertools.repeat(x): an endless supply of one value (only meaningful inside zip)."""
 
@@ -1229,6 +1234,21 @@ class Interp:
             raise Unsupported(e, "constructor call")
         if isinstance(f, BoundMethod):
             return self.call_method(f, args, kwargs, e)
+        if isinstance(f, Opaque) and f.tag in ("module:functools.lru_cache", "module:functools.cache", "module:functools.wraps"):
+            # memoisation does not change what a pure callable returns: lru_cache(maxsize=..)(f) -> f, cache(f) -> f
+            if len(args) == 1 and not kwargs and isinstance(args[0], (PyFunc, LambdaV, LocalFuncV, BoundMethod)) and f.tag != "module:functools.wraps":
+                return args[0]
+            return Opaque("identity-decorator")
+        if isinstance(f, Opaque) and f.tag == "identity-decorator" and len(args) == 1 and not kwargs:
+            return args[0]
+        if isinstance(f, Opaque) and f.tag == "module:functools.partial" and args:
+            return PartialV(args[0], list(args[1:]), dict(kwargs))
+        if isinstance(f, PartialV):
+            kw = dict(f.kwargs)
+            kw.update(kwargs)
+            if kw:
+                raise Unsupported(e, "partial with keyword arguments")
+            return self.apply_value(f.f, f.args + list(args), e)
         if isinstance(f, Opaque) and f.tag.startswith("module:bisect.") and 2 <= len(args) <= 4:
             r = self.call_bisect(f.tag.split(".", 1)[1], args, kwargs, e)
             if r is not None:
